@@ -53,17 +53,24 @@ Proof. exact function_error_named. Qed.
 Print Assumptions C13_function_error_named.
 Example C13_parse_examples :
   parse_pipe (bs "item | double | . > 5") = {| p_initial := []; p_segs := [SExpr (bs "item | double | . > 5")] |} /\
-  parse_pipe (bs "name | upper | default(""x"", 2)") = {| p_initial := bs "name"; p_segs := [SFilter (bs "upper") []; SFilter (bs "default") [bs "x"; bs "2"]] |} /\
+  parse_pipe (bs "name | upper | default(""x"", 2)") = {| p_initial := bs "name"; p_segs := [SFilter (bs "upper") []; SFilter (bs "default") [bs """x"""; bs "2"]] |} /\
   parse_pipe (bs "len(items)") = {| p_initial := []; p_segs := [SFilter (bs "len") [bs "items"]] |}.
 Proof. vm_compute. auto. Qed.
 
-(* a string-literal argument is copied up to its matching quote: a quote of the other kind, a comma, a
-   parenthesis or a pipe inside it belongs to the literal *)
+(* a string-literal argument is copied up to its matching quote, quotes included: a quote of the other kind, a
+   comma, a parenthesis or a pipe inside it belongs to the literal *)
 Theorem C13_string_literal_argument : forall qc body rest cur,
   (qc = x22 \/ qc = x27) -> ~ In qc body ->
-  parse_args_go (qc :: body ++ qc :: rest) None cur = parse_args_go rest None (rev body ++ cur).
+  parse_args_go (qc :: body ++ qc :: rest) None cur = parse_args_go rest None (qc :: rev body ++ qc :: cur).
 Proof. exact parse_args_string_literal. Qed.
 Print Assumptions C13_string_literal_argument.
+(* ... and its value is the text between the quotes, as a string, exactly: '7' is not a number, 'true' not a
+   boolean, 'title' not the variable title, and blanks inside the quotes stay *)
+Theorem C13_string_literal_value : forall s qc body,
+  (qc = x22 \/ qc = x27) -> ~ In qc body ->
+  map (resolve_argument s) (parse_args_go (qc :: body ++ [qc]) None []) = [VStr body].
+Proof. exact string_literal_value. Qed.
+Print Assumptions C13_string_literal_value.
 Example C13_literal_with_other_quote :
-  parse_args (bs """hasn't, (really)"", 'say ""hi""'") = [bs "hasn't, (really)"; bs "say ""hi"""].
+  parse_args (bs """hasn't, (really)"", 'say ""hi""'") = [bs """hasn't, (really)"""; bs "'say ""hi""'"].
 Proof. vm_compute. reflexivity. Qed.
